@@ -458,7 +458,8 @@ pub fn run_c05(ctx: &mut Ctx, _replay: Option<&[String]>) {
             // least reliable neighbour of A-Min* is then the FIRST of the tied ones, in the layered rule as in the flooding rule)
             let ties = rng.chance(1, 4);
             let msgs: Vec<(usize, f64)> = dests.iter().map(|&d| (d, if ties { *rng.pick(&[0.0, 0.0, 0.5, -0.5]) } else { 0.5 * rand_f(&mut rng, ty, style) })).collect();
-            let vars: Vec<f64> = (0..nvars).map(|_| if ties { *rng.pick(&[1.0, -1.0, 1.5, -1.5, 3.0, -3.0]) } else { rand_f(&mut rng, ty, style) }).collect();
+            // (the tie variant also produces exact-zero extrinsic values: var 0.5 with old message 0.5, or an erased bit 0.0 - 0.0)
+            let vars: Vec<f64> = (0..nvars).map(|_| if ties { *rng.pick(&[1.0, -1.0, 1.5, -1.5, 3.0, -3.0, 0.5, 0.0]) } else { rand_f(&mut rng, ty, style) }).collect();
             calls.push((msgs, vars));
         }
         let input: Vec<String> = calls.iter().map(|(m, v)| format!("{} {}", pairs_f(m), fs(v))).collect();
